@@ -8,7 +8,7 @@ import (
 )
 
 func init() {
-	mirror("modfile.modulepath", "modfile.autoquote", "modfile.isdirpath", "modfile.lex", "modfile.format")
+	mirror("modfile.modulepath", "modfile.autoquote", "modfile.isdirpath", "modfile.lex", "modfile.format", "modfile.lineless", "modfile.checkcanonical")
 	// token level: the lexer alone (hook LexTokens, build tag verif), on every input that is parsed
 	impls["modfile.lex"] = func(a []string) string {
 		toks, comments, ok := modfile.LexTokens([]byte(unhx(a[0])))
@@ -30,11 +30,51 @@ func init() {
 		}
 		return strings.Join(ts, ",") + " comments=" + cs
 	}
+	// the block-sorting comparators and checkCanonicalVersion (hooks LineLess / CheckCanonicalVersion)
+	impls["modfile.lineless"] = func(a []string) string {
+		return showBool(modfile.LineLess(a[0], unhxList(a[1]), unhxList(a[2])))
+	}
+	impls["modfile.checkcanonical"] = func(a []string) string {
+		if modfile.CheckCanonicalVersion(unhx(a[0]), unhx(a[1])) != nil {
+			return "err"
+		}
+		return "ok"
+	}
 	derivedOps["modfile.parsesyntax"] = func(line string) []string {
 		f := strings.Fields(line)
 		if len(f) != 2 || len(f[1]) > 4000 {
 			return nil
 		}
-		return []string{"modfile.lex " + f[1]}
+		out := []string{"modfile.lex " + f[1]}
+		// adjacent source lines of the input as token lists: realistic exclude / retract / require lines, compared with all
+		// three comparators; (path, version) pairs go to checkCanonicalVersion
+		var toks [][]string
+		for _, l := range strings.Split(unhx(f[1]), "\n") {
+			if i := strings.Index(l, "//"); i >= 0 {
+				l = l[:i]
+			}
+			t := strings.Fields(l)
+			if len(t) > 0 && (t[0] == "exclude" || t[0] == "retract" || t[0] == "require" || t[0] == "replace") {
+				t = t[1:]
+			}
+			if len(t) > 0 && len(t) <= 6 && t[0] != "(" && t[0] != ")" {
+				toks = append(toks, t)
+			}
+		}
+		n := 0
+		for i := 0; i+1 < len(toks) && n < 3; i++ {
+			a, b := toks[i], toks[i+1]
+			if len(a) == 1 && strings.HasPrefix(a[0], "[") {
+				continue
+			}
+			n++
+			for _, k := range []string{"line", "exclude", "retract"} {
+				out = append(out, "modfile.lineless "+k+" "+hxList(a)+" "+hxList(b), "modfile.lineless "+k+" "+hxList(b)+" "+hxList(a))
+			}
+			if len(a) >= 2 {
+				out = append(out, "modfile.checkcanonical "+hx(a[0])+" "+hx(a[1]))
+			}
+		}
+		return out
 	}
 }
